@@ -828,8 +828,10 @@ pub fn f_listing(seed: u64, big: bool) -> Plan {
     // deletions in drawn order (then the order of the survivors is what matters)
     let mut deleter: Vec<Step> = Vec::new();
     let mut gone_topics: Vec<String> = Vec::new();
+    let mut deleted_subs: Vec<String> = Vec::new();
     for (s, _t) in subs.iter() {
         if rng.chance(200) {
+            deleted_subs.push(s.clone());
             let mut st = Step::new(Op::DeleteSub { sub: s.clone() });
             // some deletes are abandoned by their client half-way
             if !big && rng.chance(250) {
@@ -871,6 +873,36 @@ pub fn f_listing(seed: u64, big: bool) -> Plan {
     }
     plan.phases.push(Phase { scripts: vec![deleter], advance_us: 0, audit: !big });
     plan.phases.push(Phase { scripts: vec![recreate], advance_us: 0, audit: false });
+    // churn: a listing, then as many deletions as creations under the same parent (the number of
+    // entries is the same afterwards, the entries are not), before the walks below
+    if !big && rng.chance(400) {
+        let mut churn: Vec<Step> = Vec::new();
+        if let Some((_, t)) = subs.first().cloned() {
+            if !gone_topics.contains(&t) {
+                let p = project_of_name(&t);
+                churn.push(Step::new(Op::Walk { kind: ListKind::TopicSubs, parent: t.clone(), page_size: *rng.pick(&[1i32, 2, 1000]) }));
+                if rng.chance(500) {
+                    churn.push(Step::new(Op::Walk { kind: ListKind::Subs, parent: format!("projects/{p}"), page_size: *rng.pick(&[1i32, 20, 1000]) }));
+                }
+                let alive: Vec<String> = subs.iter().filter(|(s, st)| *st == t && !deleted_subs.contains(s)).map(|(s, _)| s.clone()).collect();
+                let k = (rng.range(1, 3) as usize).min(alive.len());
+                for (i, victim) in alive.iter().take(k).enumerate() {
+                    churn.push(Step::new(Op::DeleteSub { sub: victim.clone() }));
+                    churn.push(Step::new(Op::CreateSub { sub: format!("projects/{p}/subscriptions/s-new-{i}"), topic: t.clone(), ack_deadline: 10, push: None }));
+                }
+            }
+        }
+        if rng.chance(300) && topics.len() >= 2 {
+            let t = topics[topics.len() - 1].clone();
+            if !gone_topics.contains(&t) && subs.first().map(|x| x.1 != t).unwrap_or(true) {
+                let p = project_of_name(&t);
+                churn.push(Step::new(Op::Walk { kind: ListKind::Topics, parent: format!("projects/{p}"), page_size: *rng.pick(&[1i32, 20, 1000]) }));
+                churn.push(Step::new(Op::DeleteTopic { topic: t.clone() }));
+                churn.push(Step::new(Op::CreateTopic { topic: format!("projects/{p}/topics/t-new") }));
+            }
+        }
+        plan.phases.push(Phase { scripts: vec![churn], advance_us: 0, audit: false });
+    }
     // the walks, with background data-plane traffic on the same topic actors
     let sizes: Vec<i32> = vec![-1, i32::MIN, 0, 1, 2, 19, 20, 21, 999, 1000, 1001, i32::MAX, n_topics as i32 - 1, n_topics as i32, n_topics as i32 + 1, n_subs.max(1) as i32];
     let mut walker: Vec<Step> = Vec::new();
@@ -1891,6 +1923,65 @@ pub fn f_recreate(seed: u64) -> Plan {
         }
         if rng.chance(400) {
             s.push(Step::new(Op::DeleteSub { sub: sub.clone() }));
+        }
+        plan.phases.push(Phase { scripts: vec![s], advance_us: 0, audit: true });
+    }
+    plan
+}
+
+// ------------------------------------------------------------------------------------------------
+// F-redelete: a DeleteSubscription that is slow (its round trip to the topic actor is held up) while
+// the same name is created again, next to a subscription that stays; afterwards both listings and
+// GetSubscription are read sequentially.
+// ------------------------------------------------------------------------------------------------
+
+pub fn f_redelete(seed: u64) -> Plan {
+    let mut rng = Rng::new(seed);
+    let mut plan = Plan { seed, family: "redelete".into(), final_drain: true, health_probe: true, ..Default::default() };
+    plan.tags.push("names".into());
+    plan.tags.push("audit_lists".into());
+    plan.knobs = knobs(&mut rng, true, 0);
+    plan.knobs.site_mask = if rng.chance(500) { u64::MAX } else { rng.next() | rng.next() };
+    plan.knobs.stall_permille = *rng.pick(&[150u32, 300, 500]);
+    plan.knobs.stall_max_us = *rng.pick(&[3_000u64, 8_000]);
+    plan.knobs.yield_permille = *rng.pick(&[0u32, 150, 300]);
+    plan.knobs.max_yields = 2;
+    let topic = topic_name("proj-r", 0);
+    let sub = sub_name("proj-r", 0, 0);
+    let other = sub_name("proj-r", 0, 1);
+    plan.phases.push(Phase {
+        scripts: vec![vec![
+            Step::new(Op::CreateTopic { topic: topic.clone() }),
+            Step::new(Op::CreateSub { sub: other.clone(), topic: topic.clone(), ack_deadline: 10, push: None }),
+            Step::new(Op::CreateSub { sub: sub.clone(), topic: topic.clone(), ack_deadline: 11, push: None }),
+        ]],
+        advance_us: 0,
+        audit: false,
+    });
+    let mut dl = 12;
+    for _ in 0..rng.range(1, 2) {
+        let mut scripts = vec![vec![Step::after(rng.below(300), Op::DeleteSub { sub: sub.clone() })]];
+        for _ in 0..rng.range(1, 2) {
+            scripts.push(vec![Step::after(rng.below(3) * rng.below(4_000), Op::CreateSub { sub: sub.clone(), topic: topic.clone(), ack_deadline: dl, push: None })]);
+            dl += 1;
+        }
+        if rng.chance(300) {
+            scripts.push(vec![Step::after(rng.below(4_000), Op::Publish { topic: topic.clone(), msgs: msgs(&mut rng, 1, false) })]);
+        }
+        plan.phases.push(Phase { scripts, advance_us: 0, audit: true });
+        let mut s = vec![
+            Step::new(Op::GetSub { sub: sub.clone() }),
+            Step::new(Op::Walk { kind: ListKind::Subs, parent: "projects/proj-r".into(), page_size: *rng.pick(&[1i32, 2, 1000]) }),
+            Step::new(Op::Walk { kind: ListKind::TopicSubs, parent: topic.clone(), page_size: *rng.pick(&[1i32, 2, 1000]) }),
+        ];
+        if rng.chance(500) {
+            s.push(Step::new(Op::Publish { topic: topic.clone(), msgs: msgs(&mut rng, 1, false) }));
+            s.push(Step::new(Op::Pull { sub: sub.clone(), max: 10, immediate: true }));
+        }
+        if rng.chance(500) {
+            // make sure the name exists for the next round
+            s.push(Step::new(Op::CreateSub { sub: sub.clone(), topic: topic.clone(), ack_deadline: dl, push: None }));
+            dl += 1;
         }
         plan.phases.push(Phase { scripts: vec![s], advance_us: 0, audit: true });
     }
